@@ -132,7 +132,7 @@ def run(ctx, res):
         gfile.to_file(g, cart)
         cart2 = os.path.join(ctx.tmp, 'g%d.p8' % i)
         gfile.to_file(g, cart2)
-        with contextlib.redirect_stdout(io.StringIO()), contextlib.redirect_stderr(io.StringIO()):
+        with U.quiet(), contextlib.redirect_stdout(io.StringIO()), contextlib.redirect_stderr(io.StringIO()):
             tool.main(['-q', 'luafmt', '--indentwidth', str(w), cart])
             tool.main(['-q', 'luafmt', '--indentwidth', str(w), '--overwrite', cart2])
         res.evaluations += 1
